@@ -746,8 +746,10 @@ struct TemplateCore {
                     // than that stays text.
                     const SizeT level = ((loop_tag != nullptr) ? SizeT(SizeT(loop_tag->Level) + SizeT{1}) : SizeT{0});
 
+                    // The offsets of the content and of the attributes are kept in 16 bits; a longer head is text.
                     if (is_loop && (level <= SizeT{0xFF}) && (offset < end_offset) &&
-                        (content[offset] == TagPatterns::MultiLineLastChar)) {
+                        (content[offset] == TagPatterns::MultiLineLastChar) &&
+                        ((offset - loop_offset) < SizeT{0xFFFF})) {
                         LoopTag *tag = (storage->Insert(TagBit{})).MakeLoopTag();
                         tag->Offset  = loop_offset;
                         tag->Parent  = loop_tag;
@@ -1025,7 +1027,7 @@ struct TemplateCore {
                     }
 
                     case LoopAttributes::Value: {
-                        tag.ValueOffset = SizeT8(att_offset - tag.Offset);
+                        tag.ValueOffset = SizeT16(att_offset - tag.Offset);
                         tag.ValueLength = SizeT8(offset - att_offset);
                         break;
                     }
@@ -1037,7 +1039,7 @@ struct TemplateCore {
                     }
 
                     case LoopAttributes::Group: {
-                        tag.GroupOffset = SizeT8(att_offset - tag.Offset);
+                        tag.GroupOffset = SizeT16(att_offset - tag.Offset);
                         tag.GroupLength = SizeT8(offset - att_offset);
                         break;
                     }
